@@ -775,6 +775,8 @@ def BodyOK (c : Cert) (f : Func) (B : Block) : List Val → List Instr → Prop
 def BlockOK (c : Cert) (f : Func) (B : Block) : Prop :=
   (∀ p ∈ B.params, p.1 ∈ c.pdefs B.id ∧ c.cty p.1 = p.2 ∧ aliasGet f.alias p.1 = none) ∧
   (∀ q ∈ c.pdefs B.id, c.rank q = c.bidx B.id * c.M) ∧
+  -- a parameter that was removed has an alias
+  (∀ q ∈ c.pdefs B.id, q ∉ B.params.map (·.1) → aliasGet f.alias q ≠ none) ∧
   (∀ v ∈ c.avail B.id, c.rank v < c.bidx B.id * c.M) ∧
   BodyOK c f B (c.avail B.id ++ c.pdefs B.id) B.instrs ∧
   -- a block other than the entry has a predecessor that comes before it in the order
@@ -803,6 +805,9 @@ structure WF (c : Cert) (f : Func) : Prop where
   /-- every value is defined once -/
   uniq : f.allDefs.Nodup
   entryAvail : c.avail f.entry = []
+  /-- the parameters of the entry block are never removed -/
+  entryGhost : ∀ B ∈ f.blocks, B.id = f.entry → ∀ q ∈ c.pdefs f.entry, q ∈ B.params.map (·.1)
+  Mpos : 0 < c.M
   blocks : ∀ B ∈ f.blocks, B.invalid = false → BlockOK c f B
 
 instance (c : Cert) (f : Func) (B : Block) (V : List Val) (i : Instr) : Decidable (InstrOK c f B V i) := by
@@ -834,9 +839,11 @@ instance (c : Cert) (f : Func) : Decidable (WF c f) :=
     (UniqueIds f ∧ (∀ e ∈ f.alias, aliasGet f.alias e.2 = none) ∧ (∀ e ∈ f.alias, c.rank e.2 < c.rank e.1) ∧
       (∀ e ∈ f.alias, c.cty e.1 = c.cty e.2) ∧
       (∀ i ∈ f.allInstrs, ConstNoKey f.alias i) ∧
-      f.allDefs.Nodup ∧ c.avail f.entry = [] ∧ (∀ B ∈ f.blocks, B.invalid = false → BlockOK c f B))
-    ⟨fun ⟨a, b, c', d, e, g, h, i⟩ => ⟨a, b, c', d, e, g, h, i⟩,
-     fun ⟨a, b, c', d, e, g, h, i⟩ => ⟨a, b, c', d, e, g, h, i⟩⟩
+      f.allDefs.Nodup ∧ c.avail f.entry = [] ∧
+      (∀ B ∈ f.blocks, B.id = f.entry → ∀ q ∈ c.pdefs f.entry, q ∈ B.params.map (·.1)) ∧ 0 < c.M ∧
+      (∀ B ∈ f.blocks, B.invalid = false → BlockOK c f B))
+    ⟨fun ⟨a, b, c', d, e, g, h, eg, mp, i⟩ => ⟨a, b, c', d, e, g, h, eg, mp, i⟩,
+     fun ⟨a, b, c', d, e, g, h, eg, mp, i⟩ => ⟨a, b, c', d, e, g, h, eg, mp, i⟩⟩
 
 /-! #### the certificate -/
 
